@@ -113,6 +113,42 @@ func isFloat(t types.Type) bool {
 	return false
 }
 
+// leafPtr: for each leaf of the flattened type, does it hold an object/array/map identifier?
+var leafPtrCache = map[string][]bool{}
+
+func leafPtr(t types.Type) []bool {
+	k := types.TypeString(t, nil)
+	if r, ok := leafPtrCache[k]; ok {
+		return r
+	}
+	var out []bool
+	switch x := under(t).(type) {
+	case *types.Pointer, *types.Map:
+		out = []bool{true}
+	case *types.Slice:
+		out = []bool{true, false, false, false}
+	case *types.Interface:
+		out = []bool{false, false}
+	case *types.Struct:
+		for i := 0; i < x.NumFields(); i++ {
+			out = append(out, leafPtr(x.Field(i).Type())...)
+		}
+	case *types.Array:
+		out = leafPtr(x.Elem())
+	case *types.Tuple:
+		for i := 0; i < x.Len(); i++ {
+			out = append(out, leafPtr(x.At(i).Type())...)
+		}
+	default:
+		out = make([]bool, len(leafSorts(t)))
+	}
+	leafPtrCache[k] = out
+	return out
+}
+
+// compPtr: heap components whose cells hold identifiers (pointers, slice arrays, maps)
+var compPtr = map[string]bool{}
+
 // leafSorts returns the flattened SMT sorts of a Go type.
 func leafSorts(t types.Type) []*Sort {
 	switch x := under(t).(type) {
